@@ -193,15 +193,15 @@ def keyLt : Key → Key → Bool
   | _, _ => false
 
 /-- `base_t::find(k)` / `at(k)` -/
-def Hist.find? (h : Hist) (k : Key) : Option Nat :=
+def Hist.findKey? (h : Hist) (k : Key) : Option Nat :=
   match h with
   | [] => none
-  | (k', c) :: rest => if k' = k then some c else Hist.find? rest k
+  | (k', c) :: rest => if k' = k then some c else Hist.findKey? rest k
 
 /-- `histogram::equals(other)`: `check` starts as "same dimension"; every entry of OTHER must be present in *this with the same
     count (entries of *this that OTHER lacks are never looked at: the test is one-sided, as coded) -/
 def equalsStep (h o : Hist) (check : Bool) (v : Key × Nat) : Bool :=
-  match h.find? v.1 with
+  match h.findKey? v.1 with
   | some c => check && (c == o.get v.1)       -- check & (at(key) == otherhist.at(v.first))
   | none => false
 def equalsH (sameDim : Bool) (h o : Hist) : Bool := o.foldl (equalsStep h o) sameDim
@@ -224,7 +224,7 @@ def nearestStep (k : Key) (s : Bool × Key) (v : Key × Nat) : Bool × Key :=
 
 /-- `histogram::nearest_key(k)`: k itself when present, otherwise the greatest key not above k (k again when there is none) -/
 def nearestKey (h : Hist) (k : Key) : Key :=
-  if (h.find? k).isSome then k else (h.foldl (nearestStep k) (true, k)).2
+  if (h.findKey? k).isSome then k else (h.foldl (nearestStep k) (true, k)).2
 
 /-- `histogram::sorted_keys()` -/
 def sortedKeys (h : Hist) : List Key := (sortHist h).map (·.1)
